@@ -67,6 +67,9 @@ pub fn command_text(kind: &str, bst: i64, list: &Value, tag: &str, marks: &str, 
     let rs = redirs_text(list, &mut bodies, &mut dn);
     let line = match kind {
         "special" => format!("eval 'obs {tag}={bst} {marks}' {rs}"),
+        // the body is in the file /tmp/x (see `dot_file`)
+        "dot" => format!(". /tmp/x {rs}"),
+        "cmddot" => format!("command . /tmp/x {rs}"),
         "builtin" => format!("obs {tag}={bst} {marks} {rs}"),
         "function" => format!("{fname} {rs}"),
         "group" => format!("{{ obs {tag}={bst} {marks}; }} {rs}"),
@@ -108,7 +111,12 @@ pub fn script_of(sc: &Value) -> String {
     s
 }
 
-pub const TRACKED_P2: &[&str] = &["a", "b", "m", "d", "t", "si", "so", "se", "s"];
+pub const TRACKED_P2: &[&str] = &["a", "b", "m", "d", "t", "si", "so", "se", "s", "x"];
+
+/// The script read by the dot built-in in scenarios of kind dot / cmddot.
+pub fn dot_file(bst: i64) -> (String, String) {
+    ("/tmp/x".to_string(), format!("obs c={bst} {MARK_FDS}\n"))
+}
 
 pub fn base_files() -> Vec<FileSpec> {
     vec![
@@ -120,11 +128,7 @@ pub fn base_files() -> Vec<FileSpec> {
 }
 
 /// Runs `script` (`-c`, or as the script file /tmp/s when `as_file`).
-pub fn run_script(script: &str, as_file: bool, tracked: &'static [&'static str]) -> ShellResult {
-    run_script_with(script, as_file, tracked, &[])
-}
-
-/// Like `run_script`, with additional regular files (path, content).
+/// `extra`: additional regular files (path, content).
 pub fn run_script_with(
     script: &str,
     as_file: bool,
@@ -292,7 +296,7 @@ fn drift(sc: &Value, exp: &Value, rec: &Value) -> Vec<&'static str> {
 pub fn run_scenario(id: i64, line: &Value) -> Value {
     let sc = &line["sc"];
     let script = script_of(sc);
-    let r = run_script(&script, sc["init"] == "int", TRACKED_P2);
+    let r = run_script_with(&script, sc["init"] == "int", TRACKED_P2, &[dot_file(sc["bst"].as_i64().unwrap())]);
     let (mut rec, _) = record(&r, "b", "c", "a", true).unwrap_or_else(|| {
         // not even the `before` observation: report an empty record
         (
